@@ -60,6 +60,7 @@ type Run struct {
 	verifDir     string
 	exhaustive   *bool
 	violKeys     map[string]int
+	bulkDistinct int
 }
 
 func VerifDir() string {
@@ -118,6 +119,16 @@ func (r *Run) Case(fingerprint string, nontrivial bool) {
 	if nontrivial {
 		r.distinct[fingerprint] = struct{}{}
 	}
+}
+
+// Bulk records cases of an enumeration whose members are distinct by
+// construction (each list is generated exactly once), without storing a
+// fingerprint per case.
+func (r *Run) Bulk(evaluations, distinctNontrivial int) {
+	r.mu.Lock()
+	r.evaluations += evaluations
+	r.bulkDistinct += distinctNontrivial
+	r.mu.Unlock()
 }
 
 // Eval counts executions that are not separately fingerprinted.
@@ -223,7 +234,7 @@ func (r *Run) Finish() int {
 		cov[k] = v
 	}
 	cov["evaluations"] = r.evaluations
-	cov["distinct_nontrivial"] = len(r.distinct)
+	cov["distinct_nontrivial"] = len(r.distinct) + r.bulkDistinct
 	cov["rule"] = r.Rule
 	samples := r.samples
 	if samples == nil {
@@ -298,7 +309,7 @@ func (r *Run) Finish() int {
 		fmt.Printf("VIOLATION property=%s replay=%s key=%s count=%d detail=%s\n", r.ID, v.Replay, v.Key, r.violKeys[v.Key], ds)
 	}
 	fmt.Printf("SUMMARY property=%s tier=%s seed=%d verdict=%s evaluations=%d distinct_nontrivial=%d violations=%d known_hits=%d wall=%.1fs\n",
-		r.ID, r.Tier, r.Seed, verdict, r.evaluations, len(r.distinct), nviol, len(r.knownHits), wall)
+		r.ID, r.Tier, r.Seed, verdict, r.evaluations, len(r.distinct)+r.bulkDistinct, nviol, len(r.knownHits), wall)
 	switch {
 	case nviol > 0:
 		return 1
@@ -307,8 +318,8 @@ func (r *Run) Finish() int {
 			fmt.Printf("INCONCLUSIVE property=%s %s\n", r.ID, s)
 		}
 		return 2
-	case r.evaluations == 0 || len(r.distinct) < 2:
-		fmt.Printf("INCONCLUSIVE property=%s the run observed too little (evaluations=%d distinct_nontrivial=%d)\n", r.ID, r.evaluations, len(r.distinct))
+	case r.evaluations == 0 || len(r.distinct)+r.bulkDistinct < 2:
+		fmt.Printf("INCONCLUSIVE property=%s the run observed too little (evaluations=%d distinct_nontrivial=%d)\n", r.ID, r.evaluations, len(r.distinct)+r.bulkDistinct)
 		return 2
 	}
 	return 0
